@@ -64,6 +64,9 @@ def reg_cases(draw, max_nodes=8, max_ops=6, faults=True, det_share=15, min_runs=
     spec = {"nodes": nodes, "output": None}
     if hoist:
         spec["hoist"] = list(hoist)
+    style = draw(st.sampled_from(["idx", "idx", "idx", "idx", "same", "long"]))
+    if style != "idx":
+        spec["store_repr"] = style
     return {"spec": spec, "ops": ops}
 
 
@@ -141,6 +144,8 @@ def spec_classes(spec):
         cl.append("source_with_extra_deps")
     if any(nd.get("foreign") for nd in nodes):
         cl.append("foreign_source")
+    if spec.get("store_repr"):
+        cl.append("store_reprs:" + spec["store_repr"])
     if spec.get("hoist"):
         cl.append("creation_order_not_topological")
     if any(nd.get("falsy") for nd in nodes):
